@@ -152,6 +152,32 @@ let exec toks =
       String.concat " "
         (List.concat_map (fun h -> [ eqr (hand_rank_value c h) v0; eqr (hand_rank_value_validated c h) w0 ]) [ h1; h2; h3 ]
          @ [ s_b (shift_suit_hand h3 = ws) ])
+  | "perm5" -> (
+      let ws = nums () in
+      let rec perms = function [] -> [ [] ] | l -> List.concat_map (fun x -> List.map (fun p -> x :: p) (perms (List.filter (( <> ) x) l))) l in
+      (* permutations of the five POSITIONS, so that repeated words are handled like the implementation side *)
+      let idx = perms [ 0; 1; 2; 3; 4 ] in
+      match hand_rank_value c ws with
+      | Ok v0 ->
+          let ok r = match r with Ok x -> x = v0 | _ -> false in
+          let same =
+            List.for_all
+              (fun p ->
+                let w = List.map (List.nth ws) p in
+                ok (hand_rank_value c w) && (match hrvh c w with Ok (x, _) -> x = v0 | _ -> false)
+                && ok (hand_rank_value_validated c w) && ok (evaluate_five_cards c w))
+              idx
+          in
+          let i = int64_of_n v0 in
+          String.concat " " [ s_b same; s_b (Int64.compare i 1L >= 0 && Int64.compare i 7462L <= 0) ]
+      | _ -> "P")
+  | "hrself" ->
+      let ws = List.tl (nums ()) in
+      let one r = match r with Ok v -> (let h = hr_from v in s_b (h = hr_from v)) | _ -> "P" in
+      let hrv = hand_rank_value c ws in
+      String.concat " "
+        [ one hrv; one (hand_rank_value_validated c ws);
+          (match hrv with Ok v -> s_b ((not (is_invalid (hr_from v))) && is_a_valid_hand_rank (hr_from v)) | _ -> "P") ]
   | "relabel" -> (
       let ws = List.tl (nums ()) in
       let rec perms = function [] -> [ [] ] | l -> List.concat_map (fun x -> List.map (fun p -> x :: p) (perms (List.filter (( <> ) x) l))) l in
@@ -229,6 +255,28 @@ let exec toks =
         [ s_res s_z (chen_formula c ws); s_res s_n (get_gap c ws); s_n (high_card ws);
           s_res s_b (is_connector c ws); s_b (is_pocket_pair ws); s_b (is_suited ws);
           s_res s_b (is_suited_connector c ws) ]
+  | "sortp" ->
+      let ws = List.tl (nums ()) in
+      let s = sort_desc ws in
+      let ge a b = Int64.unsigned_compare (int64_of_n a) (int64_of_n b) >= 0 in
+      let rec desc = function a :: (b :: _ as r) -> ge a b && desc r | _ -> true in
+      let key l = List.sort compare (List.map int64_of_n l) in
+      String.concat " " [ s_b (desc s); s_b (key s = key ws); "1"; s_b (sort_desc s = s) ]
+  | "bcsetp" ->
+      let ws = List.tl (nums ()) in
+      let bc = bc_from_hand ws in
+      let deck = List.init 52 (fun i -> match deck_get (n_of_int64 (Int64.of_int i)) with Ok w -> w | _ -> N0) in
+      let members = List.filter (fun cd -> List.mem cd ws) deck in
+      let count_ok = int64_of_n (number_of_cards bc) = Int64.of_int (List.length members) in
+      let has_ok = List.for_all (fun cd -> has bc (from_ckc cd)) members in
+      let no_overflow = Int64.shift_right_logical (int64_of_n bc) 52 = 0L in
+      let x = ref bc in
+      let peeled = List.map (fun _ -> let r, x' = peel !x in x := x'; from_binary_card r) members in
+      let rest = !x in
+      let last, x' = peel !x in
+      let peel_ok = peeled = members && last = N0 && x' = rest && rest = N0 in
+      let valid_ok = bc_is_valid bc = (members <> []) in
+      String.concat " " [ s_b count_ok; s_b has_ok; s_b no_overflow; s_b peel_ok; s_b valid_ok ]
   | "bcfrom" -> s_n (bc_from_hand (List.tl (nums ())))
   | "bcops" -> (
       match nums () with
